@@ -101,6 +101,13 @@ class Run:
     def _fuzz_for(self, cfs, c, ob):
         """replay result for one obligation: a failing ensures clause counts for the post obligation of that
         clause; for loop/bounds obligations any failing clause of the function counts"""
+        if ob.kind == "bounds":
+            from . import cfuzz
+            key = (c.func, c.tag, "asan")
+            if key not in self._fuzz_cache:
+                self._fuzz_cache[key] = cfuzz.asan_fuzz(cfs, c, trials=100 if self.tier == "quick" else 1000, seed=self.seed)
+            if self._fuzz_cache[key].get("reproduced"):
+                return dict(self._fuzz_cache[key])
         r = dict(self._fuzz(cfs, c))
         if r.get("reproduced") and ob.kind == "post" and c.replay_ensures is None:
             if ob.meta.get("label") not in (r.get("violated_clauses") or []):
@@ -261,6 +268,9 @@ class Run:
         attempt(qf_first, 3.0, "+qf", drop_quantified=True)
         attempt(qf_first, 3.0, "+qf+umul", drop_quantified=True, abstract_mul=True)
         attempt([o for o in smt if o.meta.get("abstract_first")], 4.0, "+umul", abstract_mul=True)
+        quant = [o for o in smt if _has_quantifier(o.goal) or any(_has_quantifier(h) for h in o.hyps)]
+        attempt(quant, 6.0, "+ematch", mbqi=False)                   # exact formula, instantiation by patterns only
+        attempt(quant, 6.0, "+ematch+umul", mbqi=False, abstract_mul=True)
         backends.discharge(obls, self.budget)                       # exact, everything still open (all back ends)
         unk = [o for o in obls if o.status == "unknown" and o.backend == "smt" and o.expect == "valid"]
         for o in unk:
